@@ -193,10 +193,7 @@ def rotation(lens: List[int], rot: int, maxr: int, textw: int, tb: int, reopen_a
         total = _cat(parts)
         if maxr < 0:
             return total == _cat(stream)
-        for j in range(len(stream) + 1):
-            if total == _cat(stream[j:]):
-                return True
-        return False
+        return fakefs.is_suffix_of_stream(total, stream, _empty())
 
 
 def rotate_crash(lens: List[int], rot: int, maxr: int, crash_at: int, cut: int) -> bool:
@@ -257,10 +254,7 @@ def rotate_crash(lens: List[int], rot: int, maxr: int, crash_at: int, cut: int) 
         total = _cat(parts)
         if maxr < 0:
             return total == _cat(stream)          # nothing lost, duplicated or reordered
-        for j in range(len(stream) + 1):
-            if total == _cat(stream[j:]):
-                return True
-        return False
+        return fakefs.is_suffix_of_stream(total, stream, _empty())
 
 
 def _sh_rot(tier):
@@ -273,7 +267,10 @@ def _sh_rot(tier):
 
 def _sh_crash(tier):
     st = BOUNDS[tier]["steps"]
-    cuts = [(0, st // 3), (st // 3 + 1, 2 * st // 3), (2 * st // 3 + 1, st)]
+    if tier == "quick":
+        cuts = [(0, st // 3), (st // 3 + 1, 2 * st // 3), (2 * st // 3 + 1, st)]
+    else:
+        cuts = [(c, c) for c in range(st + 1)]
     return [("maxr == %d" % m, "%d <= crash_at <= %d" % c) for m in (-1, 1, 2) for c in cuts]
 
 
